@@ -54,10 +54,11 @@ def make_src(mode, h, w, defined, base):
         elif mode == "RGBA":
             a[y, x] = (v % 256, (v + 50) % 256, (v + 100) % 256, 200 + k if defined[k] else 0)
         elif mode in ("F32", "F64"):
-            a[y, x] = v + 0.5 if defined[k] else np.nan
+            # +-inf are defined values (only NaN is undefined)
+            a[y, x] = (np.inf if k % 5 == 1 else (-np.inf if k % 5 == 3 else v + 0.5)) if defined[k] else np.nan
         elif mode == "F16x3":
             if defined[k]:
-                a[y, x] = (v, v + 1, v + 2)
+                a[y, x] = (v, np.inf if k % 5 == 1 else v + 1, v + 2)
             elif k % 2:
                 a[y, x] = (np.nan, np.nan, np.nan)
             else:
@@ -479,7 +480,61 @@ def persistence_job(job):
     return part
 
 
+def aliasing_job(job):
+    """Two missing tiles read with default='masked', or two nested update_image blocks, must be
+    independent buffers: defining pixels in one must not show up in the other."""
+    from toasty.image import Image, ImageMode
+    from toasty.pyramid import PyramidIO, Pos
+
+    mode, fmt = job
+    part = Part()
+    M = ImageMode[mode]
+    A, B, _p, _u = tile_arrays(mode)
+    pa, pb = Pos(1, 0, 0), Pos(1, 1, 1)
+    cfg = {"mode": mode, "format": fmt, "aliasing": True}
+
+    def bad(clause, detail):
+        part.violation("persistence/%s/mode=%s/format=%s" % (clause, mode, fmt), "%r: %s" % (cfg, detail), cfg)
+
+    with scratch("c15a") as d:
+        pio = PyramidIO(os.path.join(d, "t"), default_format=fmt)
+        part.case(nontrivial=True)
+        try:
+            with quiet():
+                a = pio.read_image(pa, default="masked", masked_mode=M)
+                b = pio.read_image(pb, default="masked", masked_mode=M)
+                src = Image.from_array(B[:40, :50].copy())
+                src.update_into_maskable_buffer(a, slice(None), slice(None), slice(10, 50), slice(20, 70))
+                if not np.all(undefined_mask(mode, np.asarray(b.asarray()), True)):
+                    bad("masked-default-buffers-aliased", "defining pixels in the buffer read for %r changed the buffer read for %r" % (tuple(pa), tuple(pb)))
+                c = pio.read_image(pb, default="masked", masked_mode=M)
+                if np.all(undefined_mask(mode, np.asarray(a.asarray()), True)) and mode != "RGB":
+                    bad("masked-default-buffers-aliased", "a later masked read wiped the buffer the caller still holds")
+                # nested read-modify-write blocks on two positions
+                part.case(nontrivial=True)
+                with pio.update_image(pa, masked_mode=M, default="masked") as ia:
+                    with pio.update_image(pb, masked_mode=M, default="masked") as ib:
+                        Image.from_array(B[:30, :30].copy()).update_into_maskable_buffer(ib, slice(None), slice(None), slice(200, 230), slice(200, 230))
+                    Image.from_array(A[:20, :20].copy()).update_into_maskable_buffer(ia, slice(None), slice(None), slice(0, 20), slice(0, 20))
+                ra = np.asarray(pio.read_image(pa).asarray())
+                rb = np.asarray(pio.read_image(pb).asarray())
+                da = ~undefined_mask(mode, ra, True)
+                db = ~undefined_mask(mode, rb, True)
+                wa = np.zeros((256, 256), bool)
+                wa[0:20, 0:20] = True
+                wb = np.zeros((256, 256), bool)
+                wb[200:230, 200:230] = True
+                if mode != "RGB" and (not np.array_equal(da, wa) or not np.array_equal(db, wb)):
+                    bad("nested-updates-leak", "after nested update_image blocks the tiles define %d and %d pixels outside their addressed rectangles" % (int((da & ~wa).sum()), int((db & ~wb).sum())))
+        except Exception as e:
+            bad("raises:%s/op=aliasing" % type(e).__name__, repr(e))
+    part.sample(cfg)
+    return part
+
+
 def _job(j):
+    if j[0] == "aliasing":
+        return aliasing_job(j[1:])
     if j[0] == "buffers":
         return buffers_job(j[1])
     return persistence_job(j[1:])
@@ -504,6 +559,9 @@ def run(tier, seed):
                 jobs.append(("persist", m, f, scheme, maxdepth))
             # the same histories with an explicit format= differing from the pyramid's default
             jobs.append(("persist", m, f, "L/Y/YX" if (len(m) + len(f)) % 2 else "LXY", maxdepth, True))
+    for m in MODES:
+        if m != "RGB":
+            jobs.append(("aliasing", m, "npy"))
     jobs = rng_order(jobs, seed)
     par.pmap(_job, jobs, rep)
     return rep.finish()
@@ -511,8 +569,9 @@ def run(tier, seed):
 
 def replay(payload):
     r = payload["replay"]
-    part = Part()
-    if "history" in r:
+    if r.get("aliasing"):
+        p = aliasing_job((r["mode"], r["format"]))
+    elif "history" in r:
         p = persistence_job((r["mode"], r["format"], r["scheme"], max(1, len(r["history"])), r.get("explicit_format", False)))
     else:
         p = buffers_job(r["mode"])
